@@ -102,13 +102,16 @@ CHECKS['C16'] = dict(
          're-attach) is NOT decided.',
     design='§3 C16', note=TB_ASM)
 CHECKS['C08'] = dict(
-    technique='static analysis: name-token agreement of ~2400 bindings over all variant TUs; dominance-based feature-mask coverage on every path to a variant init; constant evaluation of the CPU-flag macros',
+    technique='static analysis: name-token agreement of ~2400 bindings over all variant TUs; dominance-based feature-mask coverage on every path to a variant init; constant evaluation of the CPU-flag macros; ISA classification of every reachable instruction of the assembled routines against the variant feature mask',
     text='Decides necessary conditions for variant equivalence that the tests cannot reach (six of nine variants never execute on this '
          'host): every macro->kernel binding and handler assignment agrees in key size / digest / direction / operation; every handler slot '
          'is bound in every variant; a variant init is reachable only under feature tests covering its IMB_CPUFLAGS mask, failing edges '
          'report IMB_ERR_MISSING_CPUFLAGS_INIT_MGR or fall through to a weaker variant, types are tried in descending order, and the '
-         'SHANI/GFNI-off flags clear exactly their bits; self-test only after successful init. NOT decided: bit-equality of different '
-         'kernels for the same algorithm, and ISA containment of every reachable instruction.',
+         'SHANI/GFNI-off flags clear exactly their bits; self-test only after successful init; ISA containment: every assembly routine reachable '
+         'from a variant TU (called or bound, transitively through assembly callees) uses only instruction-set extensions (classified from '
+         'encoding, mnemonic and operand width) whose IMB_FEATURE bits the variant requires or a dominating feature test establishes; '
+         'object-level clone / constant-width consistency of the kernels. NOT decided: bit-equality of different kernels for the same '
+         'algorithm; instructions emitted by the C compiler.',
     design='§3 C08', note=TB)
 
 _NOTVAL = ('The property proper (output equals the published algorithm for all inputs) is a value-level claim about hand-written SIMD '
